@@ -188,9 +188,11 @@ where
     let src = reader.fill_buf()?;
 
     if matches!(compression_method, Some(CompressionMethod::Bgzf)) {
-        let mut decoder = MultiGzDecoder::new(src);
-        let mut buf = [0; BAM_MAGIC_NUMBER.len()];
-        decoder.read_exact(&mut buf)?;
+        let decoder = MultiGzDecoder::new(src);
+        let mut buf = Vec::with_capacity(BAM_MAGIC_NUMBER.len());
+        decoder
+            .take(BAM_MAGIC_NUMBER.len() as u64)
+            .read_to_end(&mut buf)?;
 
         if buf == BAM_MAGIC_NUMBER {
             return Ok(Format::Bam);
